@@ -128,9 +128,49 @@ def configured_paths_resolved_every_time(ctx):
                   "its argument no longer matches" % (bad[0][1][:80] if bad else "", cont))
 
 
+def every_resolved_cgroup_is_returned(ctx, tag):
+    """OomdContext::addToCacheAndGet(set) returns a context for EVERY resolved path that can be opened: its walk over the resolved set has
+    no early exit (a path that vanished between glob and open is passed over, it does not empty the result), and every iteration whose
+    per-path lookup succeeded appends that context.  Plugins read an empty result as 'watched value 0' / 'nothing to do'."""
+    P, cg = ctx.prog, ctx.cg
+    sets = [f for f in P.fn("Oomd::OomdContext::addToCacheAndGet") if f.params and "unordered_set" in f.params[0]["type"]]
+    if len(sets) != 1:
+        ctx.broken(tag + ":every-resolved-cgroup-is-returned", "anchor", "-", "expected one OomdContext::addToCacheAndGet overload taking the configured set")
+        return
+    f = ctx.use(sets[0])
+    inner = [i for i in f.calls("OomdContext::addToCacheAndGet") if len(f.nodes[i].get("args", [])) == 1 and f.pos_of(i) is not None]
+    ls = [l for l in loops(f) if l["stmt"] is not None and any(f.pos_of(i)[0] in l["body"] or l["stmt"] in list(f.ancestors(i)) for i in inner)]
+    if len(ls) != 1 or not inner:
+        ctx.broken(tag + ":every-resolved-cgroup-is-returned", "anchor", f.loc(), "expected one loop holding the per-path lookup")
+        return
+    L = ls[0]
+    no_early_exit(ctx, f, L, tag + ":every-resolved-cgroup-is-returned:no-early-exit", "the resolved paths")
+    rets = set()
+    for r in returns(f):
+        if "val" in f.nodes[r]:
+            for x in f.walk(f.nodes[r]["val"]):
+                if f.nodes[x]["k"] == "ref" and f.nodes[x].get("dk") == "local":
+                    rets.add(f.nodes[x]["name"])
+    pushes = [i for i in f.calls("push_back", "emplace_back") if f.pos_of(i) is not None and f.text(f.nodes[i].get("recv", -1)) in rets and L["stmt"] in list(f.ancestors(i))]
+    ctx.counters[tag + "_resolved_pushes"] = len(pushes)
+    ctx.floor(tag + "_resolved_pushes", 1, "appends of a looked-up context to the returned vector")
+    ok_tok = lambda k, p: ["found"] if (isinstance(k, str) and p is True and (re.search(r"addToCacheAndGet\(", k) or k in locals_receiving(f, r"addToCacheAndGet\("))) else None
+    found_names = locals_receiving(f, r"addToCacheAndGet\(")
+    fi = iter_flow(ctx, f, L, {i: [("set", "pushed")] for i in pushes}, edge_tokens=ok_tok,
+                   split=lambda k: isinstance(k, str) and (bool(re.search(r"addToCacheAndGet\(", k)) or k in found_names))
+    bad = False
+    for b in back_sources(L):
+        for st_ in (fi.OUT.get(b) or {}).values():
+            if "found" in st_.may and "pushed" not in st_.must:
+                bad = True
+    ctx.check(not bad, tag + ":every-resolved-cgroup-is-returned:found-is-appended", "per-iteration must_follow", f.loc(L["stmt"]),
+              "an iteration whose lookup succeeded appends the context", "an iteration can complete with a context found but not appended to the result")
+
+
 def run(ctx):
     floor_at_least_memory_min(ctx)
     configured_paths_resolved_every_time(ctx)
+    every_resolved_cgroup_is_returned(ctx, "C18")
     from .C15 import every_context_refreshed
     every_context_refreshed(ctx)
     # locals / parameters the rules below refer to by name (a rename makes the analysis 'broken', never a violation)
